@@ -114,7 +114,20 @@ func gen(r *harn.Rng, tier string) interface{} {
 		}
 	}
 	if r.Bool(0.3) {
-		for i, n := 0, r.Range(1, 3); i < n; i++ {
+		nrc := r.Range(1, 3)
+		quick := r.Bool(0.25)
+		if quick {
+			nrc = r.Range(4, 8) // several raise/lower cycles in quick succession
+		}
+		for i, n := 0, nrc; i < n; i++ {
+			if quick {
+				v := r.Pick(1000, 30000)
+				if i%2 == 1 {
+					v = r.Pick(100, 1000, 8000)
+				}
+				sc.Reconf = append(sc.Reconf, reconf{AfterNs: int64(r.Pick(1, 5, 20, 50)) * 1e6, What: "burst", Value: v})
+				continue
+			}
 			if r.Bool(0.25) {
 				sc.Reconf = append(sc.Reconf, reconf{AfterNs: int64(r.Intn(400)) * 1e6, What: []string{"rate-again", "burst-again"}[r.Intn(2)]})
 			} else if r.Bool(0.5) {
